@@ -29,8 +29,40 @@ pub fn base_graph_counts<K: Kmer>(reads: &[Vec<u8>], stranded: bool, min_count: 
     compress_kmers_with_hash(stranded, &spec, &t)
 }
 
-/// Graph for a spec: through the pipeline, or (free-form node set) through `BaseGraph::add`.
+/// Graph for a spec: through the pipeline, or (free-form node set) through `BaseGraph::add`;
+/// then, when the spec says so, the node sequences are re-laid-out in the packed store with
+/// unused bases between them (through the store's public fields: the same nodes, but a node's
+/// offset is no longer the sum of the lengths before it).
 pub fn base_graph_for<K: Kmer>(spec: &crate::spec::GraphSpec) -> BaseGraph<K, u16> {
+    let mut g = base_graph_nodes::<K>(spec);
+    if spec.store_gap > 0 && g.len() > 0 {
+        use debruijn::dna_string::{DnaString, PackedDnaStringSet};
+        use debruijn::Mer;
+        let mut sequence = DnaString::new();
+        let mut start = Vec::with_capacity(g.len());
+        let mut length = Vec::with_capacity(g.len());
+        for i in 0..g.len() {
+            // the first node may or may not sit at offset 0
+            let gap = (i * 31 + spec.store_gap) % (spec.store_gap + 1);
+            for j in 0..gap {
+                sequence.push(((i + j + spec.store_gap) % 4) as u8);
+            }
+            let s = g.sequences.get(i);
+            start.push(sequence.len());
+            for j in 0..s.len() {
+                sequence.push(s.get(j));
+            }
+            length.push(s.len() as u32);
+        }
+        for j in 0..spec.store_gap % 5 {
+            sequence.push((j % 4) as u8);
+        }
+        g.sequences = PackedDnaStringSet { sequence, start, length };
+    }
+    g
+}
+
+fn base_graph_nodes<K: Kmer>(spec: &crate::spec::GraphSpec) -> BaseGraph<K, u16> {
     let whole: BaseGraph<K, u16> = if spec.direct_nodes.is_empty() {
         base_graph_counts::<K>(&spec.reads, spec.stranded, spec.min_count)
     } else {
